@@ -59,7 +59,7 @@ func TestPolicy(t *testing.T) {
 			twoSignatures := false
 			nvar := c.Int("nvariations", 0, 3)
 			for i := 0; i < nvar; i++ {
-				kind := c.PickStr("variation", "validity", "lifetime", "integrity", "number-overflow", "two-signatures", "method", "req-header", "resp-header", "content-type", "cache-control", "expires-header", "status")
+				kind := c.PickStr("variation", "validity", "lifetime", "integrity", "foreign-integrity", "number-overflow", "two-signatures", "method", "req-header", "resp-header", "content-type", "cache-control", "expires-header", "status")
 				kinds = append(kinds, kind)
 				switch kind {
 				case "validity":
@@ -90,8 +90,23 @@ func TestPolicy(t *testing.T) {
 						c.Probe("lifetime == 604801")
 					}
 				case "integrity":
-					integrityEdit = c.PickStr("integrity", "mi-draft2", "digest/mi-sha256-03", "digest/mi-sha256", "mi-sha256-03")
-					p.Integrity = integrityEdit
+					if !l.ForeignMI {
+						integrityEdit = c.PickStr("integrity", "mi-draft2", "digest/mi-sha256-03", "digest/mi-sha256", "mi-sha256-03")
+						p.Integrity = integrityEdit
+					}
+				case "foreign-integrity":
+					// the other version's scheme used consistently: payload encoding, digest
+					// header, Content-Encoding and the (unsigned) integrity parameter all agree
+					// with each other - and none with the exchange's version
+					if integrityEdit == "" {
+						l.ForeignMI = true
+						integrityEdit = "mi-draft2"
+						if l.Version == "1b1" {
+							integrityEdit = "digest/mi-sha256-03"
+						}
+						p.Integrity = integrityEdit
+						c.Probe("other version's integrity scheme used consistently")
+					}
 				case "two-signatures":
 					// the Signature header lists the same valid signature twice: each is subject
 					// to every condition, the verdict does not change
